@@ -133,6 +133,11 @@ fn gen_prefix<'a>(rng: &mut Rng, root: &'a EC) -> (Vec<String>, &'a EC) {
                     let v = o.pvs.as_ref().map(|p| p[0].0.clone()).unwrap_or("v".into());
                     if let Some(l) = &o.long { if rng.chance(1, 2) { words.push(format!("--{l}={v}")); } else { words.push(format!("--{l}")); words.push(v); } }
                     else if let Some(s) = o.short { words.push(format!("-{s}")); words.push(v); }
+                    // ... or by one of its shorts (the primary one or a visible alias), value separate or attached
+                    if o.long.is_some() && rng.chance(1, 3) { words.pop(); if words.last().map(|x| x.starts_with("--")).unwrap_or(false) && words.len() > 1 { words.pop(); }
+                        let v = o.pvs.as_ref().map(|p| p[0].0.clone()).unwrap_or("v".into());
+                        let sh: Vec<char> = o.short.iter().chain(o.vshorts.iter()).cloned().collect();
+                        if let Some(c) = sh.get(rng.below(sh.len().max(1))) { if rng.chance(1, 2) { words.push(format!("-{c}")); words.push(v); } else { words.push(format!("-{c}{v}")); } } }
                 }
             }
             _ => { // descend
@@ -164,7 +169,10 @@ pub fn run(o: &Opts) -> Report {
         for _ in 0..(if o.thorough() { 12 } else { 8 }) {
             let (mut words, level) = gen_prefix(&mut rng, &root);
             let mut pool: Vec<String> = vec!["".into(), "-".into(), "--".into(), "--o".into(), "--op".into(), "s".into(), "su".into(), "zz".into(), "--zz".into()];
-            for a in &level.args { if let Some(l) = &a.long { pool.push(format!("--{}", &l[..l.len() / 2])); pool.push(format!("--{l}")); } if a.kind == 0 { if let Some(s) = a.short { pool.push(format!("-{s}")); } } }
+            for a in &level.args { if let Some(l) = &a.long { pool.push(format!("--{}", &l[..l.len() / 2])); pool.push(format!("--{l}")); } if a.kind == 0 { if let Some(s) = a.short { pool.push(format!("-{s}")); } }
+                // a cluster that ends in a value-taking short (primary or visible alias): what follows is its value
+                if a.kind == 1 { for c in a.short.iter().chain(a.vshorts.iter()) { pool.push(format!("-{c}")); if let Some(f) = level.args.iter().find(|f| f.kind == 0 && f.short.is_some()) { pool.push(format!("-{}{c}", f.short.unwrap())); }
+                    if let Some(p) = &a.pvs { pool.push(format!("-{c}{}", &p[0].0[..1])); } } } }
             for s in &level.subs { pool.push(s.name[..s.name.len() / 2].to_string()); pool.push(s.name.clone()); }
             let w = rng.pick(&pool[..]).clone();
             words.push(w.clone());
@@ -187,7 +195,31 @@ pub fn run(o: &Opts) -> Report {
             }
             let sub_sp: Vec<(String, &EC, bool)> = level.subs.iter().flat_map(|s| std::iter::once((s.name.clone(), s, true)).chain(s.valiases.iter().map(move |a| (a.clone(), s, true))).chain(s.haliases.iter().map(move |a| (a.clone(), s, false)))).collect();
             let pos_values: Vec<String> = level.args.iter().filter(|a| a.kind == 2).flat_map(|a| a.pvs.clone().unwrap_or_default().into_iter().map(|p| p.0)).collect();
+            // a short cluster whose flags are followed by a value-taking short: the rest of the word is that option's value,
+            // so every candidate keeps the cluster up to that short and completes the value (a possible value, if declared)
+            let mut value_cluster = false;
+            if w.starts_with('-') && !w.starts_with("--") && w.len() >= 2 {
+                let chars: Vec<char> = w.chars().skip(1).collect();
+                for (i, ch) in chars.iter().enumerate() {
+                    match short_sp.iter().find(|(c, _)| c == ch) {
+                        Some((_, a)) if a.kind == 0 => continue,
+                        Some((_, a)) if a.kind == 1 => {
+                            value_cluster = true;
+                            let head: String = std::iter::once('-').chain(chars[..=i].iter().cloned()).collect();
+                            for (v, _) in &cands {
+                                if !v.starts_with(head.as_str()) { rep.oracle_fail("candidate-does-not-extend-word", &key, &format!("candidate {v:?} drops the cluster {head:?} of word {w:?}")); continue; }
+                                let val = v[head.len()..].strip_prefix('=').unwrap_or(&v[head.len()..]);
+                                if let Some(p) = &a.pvs { let last = val.rsplit(a.delim.unwrap_or('\u{0}')).next().unwrap_or(val);
+                                    if !p.iter().any(|(n, _)| n == last) { rep.oracle_fail("candidate-rejected-by-parser", &key, &format!("candidate {v:?}: {val:?} is offered as the value of -{ch} ({}) but is not one of its possible values {p:?}", a.id)); } }
+                            }
+                            break;
+                        }
+                        _ => break,
+                    }
+                }
+            }
             for (v, _) in &cands {
+                if value_cluster { break; }
                 if pos_values.contains(v) { continue; }
                 if w.contains('=') { continue; } // `--opt=value` completions are value candidates
                 if !v.starts_with(w.as_str()) { rep.oracle_fail("candidate-does-not-extend-word", &key, &format!("candidate {v:?} for word {w:?}")); }
@@ -202,7 +234,7 @@ pub fn run(o: &Opts) -> Report {
                     rep.oracle_fail("candidate-rejected-by-parser", &key, &format!("candidate {v:?}: parser says {k:?} for {line:?}")); } }
             }
             // completeness and the hidden rule (only when the word cannot be an option value: no `=`)
-            if !w.contains('=') {
+            if !w.contains('=') && !value_cluster {
                 let any_visible = cands.iter().any(|(_, h)| !*h);
                 if any_visible && cands.iter().any(|(_, h)| *h) { rep.oracle_fail("hidden-offered-next-to-visible", &key, &format!("{cands:?}")); }
                 for a in level.args.iter().filter(|a| !a.hide && a.kind != 2) {
